@@ -75,3 +75,24 @@ extern "C" void h_enc_minimal(void) {
     }
     __CPROVER_assert(op != 0x4c, "canary: OP_PUSHDATA1 form reachable");
 }
+// ---- C18: the debugger's integer <-> bytes conversions are exactly the script-number codec
+extern "C" void h_value_int(void) {
+    Value v; __CPROVER_havoc_object(&v); __CPROVER_assume(v.data.n <= 8);
+    bool as_data = nondet_bool();
+    if (as_data) {
+        v.type = Value::T_DATA;
+        verif_expect_throw = v.data.n > 4 ? VT_SCRIPTNUM_OVERFLOW : VT_NONE;   // 4-byte numeric operands; minimality is not required for literals
+        int64_t r = v.int_value();
+        __CPROVER_assert(v.data.n <= 4, "spec: byte strings longer than four bytes are not numbers (script number overflow)");
+        __CPROVER_assert(r == spec_num_value(v.data.s.a, v.data.n), "spec: the integer value of a byte string is the little-endian sign-magnitude value Bitcoin assigns it");
+    } else {
+        v.type = Value::T_INT; int64_t x = v.int64; __CPROVER_assume(x != (-9223372036854775807L - 1));
+        verif_expect_throw = VT_NONE;
+        __CPROVER_assert(v.int_value() == x, "spec: the integer value of an integer literal is the integer");
+        verif_bytes d = v.data_value();
+        __CPROVER_assert(d.n == spec_num_len(x) && spec_num_minimal(d.s.a, d.n) && spec_num_value(d.s.a, d.n) == x, "spec: the bytes of an integer literal are its unique minimal script-number encoding");
+        __CPROVER_assert(v.type == Value::T_DATA, "spec: after conversion the value is data");
+    }
+    __CPROVER_assert(as_data, "canary: integer literal branch reachable");
+    __CPROVER_assert(!(as_data && v.data.n == 4), "canary: 4-byte string reachable");
+}
